@@ -51,6 +51,18 @@ func (c *Ctx) StartChildBin(bin, cfg, id string, env ...string) *Child {
 // IsChild reports whether this process is such a child.
 func IsChild() bool { return os.Getenv("VERIF_CHILD") != "" }
 
+// Crashed waits for the child and reports whether it died without writing
+// evidence (e.g. a panic in code under test that is linked into the child),
+// together with its output. A check for which that is a verdict, not a harness
+// failure, calls it before Join.
+func (ch *Child) Crashed() (bool, string) {
+	<-ch.done
+	if _, err := os.Stat(filepath.Join(ch.root, "evidence", ch.id+".json")); err == nil {
+		return false, ""
+	}
+	return true, string(ch.out)
+}
+
 // Join waits for the child and folds its evaluations and violations in.
 func (c *Ctx) Join(ch *Child) {
 	<-ch.done
